@@ -738,6 +738,9 @@ def c04():
         vol, cs = gen.top_clusters_volume(rng, [12, 16][i % 2])
         top.append(gen.io_program(rng, "top-io-%d" % i, {"vol": vol}, cs, 35, n_files=3, max_clusters=4))
     res.append(("top-clusters", core.campaign("top-clusters", top, wd)))
+    # a transient storage error in the flush that should store the entry, then a good flush / close: the medium then says what the session saw
+    ff = [gen.flush_fault_io_program(rng, "flush-fault-%d" % i, gen.K(["K1b", "K2", "K5"][i % 3]), CS[["K1b", "K2", "K5"][i % 3]]) for i in range(scale(24, 240))]
+    res.append(("flush-fault", core.campaign("flush-fault", ff, wd)))
     # a FAT32 tree above cluster 65535 (chains beginning at 65536 / 131072 among them): files emptied and rewritten in low clusters, moves
     high = [gen.foreign_high_program(rng, "c04-high-%d" % i, rewrite=0.8) for i in range(scale(8, 80))]
     res.append(("foreign-high", core.campaign("foreign-high", high, wd)))
@@ -963,6 +966,13 @@ def c14():
     for kname in ["K1", "K1b", "K3"]:
         for i in range(half(4, 40)):
             progs.append(gen.crash_reuse_program(rng, "crash-reuse-%s-%d" % (kname, i), gen.K(kname), CS[kname]))
+    # one crash program in three runs under a clock that stands still on an even second (a coarse or absent real-time clock): the stamps a
+    # write sets are then the ones already stored
+    for j, p in enumerate(progs):
+        if j % 3 == 2:
+            p["ops"].insert(0, {"op": "clock", "t": [2020, 6, 15, 12, 30, 30, 0]})
+            if "fault" in p:
+                p["fault"] = dict(p["fault"], at=p["fault"]["at"] + 1)
     # every device call of a multi-cluster write interrupted once (quick: two configurations)
     for kname in (["K1b", "K5"] if core.tier() == "quick" else ["K1b", "K2", "K3", "K5"]):
         progs += gen.intr_write_programs("intr-write-%s" % kname, gen.K(kname), CS[kname])
